@@ -367,6 +367,23 @@ func (g *exGen) Gen(kind string, d int) *Ex {
 			}
 			return &Ex{K: "name", Text: g.r.Pick([]string{"true", "false"})}
 		}
+		if g.r.Chance(6) {
+			// an integer beyond 2^53 against the float it rounds to (or a neighbour): the integer operand is converted
+			// to float64, so 9007199254740993 == 9007199254740992.0 holds
+			ints := []int64{1<<53 + 1, 1<<53 + 1, 1<<53 + 3, -(1<<53 + 1), math.MaxInt64, math.MaxInt64 - 1, math.MinInt64 + 1, 1 << 53, 1<<60 + 1}
+			flts := []string{"9007199254740992.0", "9007199254740994.0", "9007199254740996.0", "-9007199254740992.0", "9223372036854775807.0", "9.223372036854775808e18", "-9.223372036854775808e18", "1152921504606846976.0"}
+			a := g.intLit(ints[g.r.Intn(len(ints))])
+			t := flts[g.r.Intn(len(flts))]
+			v, _ := strconv.ParseFloat(t, 64)
+			var b *Ex = &Ex{K: "lit", Op: "float", Text: t, Val: v}
+			if g.r.Chance(30) {
+				b = &Ex{K: "bin", Op: "+", A: a, B: &Ex{K: "lit", Op: "float", Text: "0.0", Val: 0.0}}
+			}
+			if g.r.Bool() {
+				a, b = b, a
+			}
+			return g.paren(&Ex{K: "bin", Op: g.r.Pick([]string{"==", "!=", "<", "<=", ">", ">=", "==", "!="}), A: a, B: b})
+		}
 		switch c := g.r.Intn(100); {
 		case c < 40:
 			k := g.r.Pick([]string{"i", "i", "f", "s"})
